@@ -45,6 +45,9 @@ type Sess struct {
 	Main func(w *world.World)
 	// Bystander adds a second, passive peer P2 (10.0.0.3) used as liveness probe.
 	Bystander bool
+	// Reconnect lets a second connection happen (Script runs once per connection): outbound
+	// the second dial attempt is accepted too, inbound the remote connects again after 1 s.
+	Reconnect bool
 }
 
 func peerConfig(remote string, las, ras uint32) corebgp.PeerConfig {
@@ -76,7 +79,7 @@ func (s *Sess) Run(ch vrt.Chooser, trace bool) (*world.World, *vrt.Exec) {
 			opts = append(opts, corebgp.WithPassive())
 		} else {
 			w.NW.OnDial(remAddr, func(att int, from *net.TCPAddr) vnet.DialOutcome {
-				if att > 0 {
+				if att > 0 && !(att == 1 && s.Reconnect) {
 					return vnet.DialOutcome{Kind: vnet.DialRefuse}
 				}
 				return vnet.DialOutcome{Kind: vnet.DialAccept, Serve: func(c *vnet.Conn) {
@@ -99,13 +102,27 @@ func (s *Sess) Run(ch vrt.Chooser, trace bool) (*world.World, *vrt.Exec) {
 				r := w.NewRemote(c, "P1")
 				s.Script(w, r)
 				r.Finish()
+				if s.Reconnect {
+					vrt.Sleep(time.Second)
+					if c2, err := w.NW.DialIn("10.0.0.2:40002", libAddr); err == nil {
+						r2 := w.NewRemote(c2, "P1")
+						s.Script(w, r2)
+						r2.Finish()
+					}
+				}
 			})
 		}
 		if s.Main != nil {
 			s.Main(w)
 			return
 		}
-		vrt.WaitLog("remote-done", func() bool { return w.AllRemotesDone(1) })
+		want := 1
+		if s.Reconnect {
+			want = 2
+		}
+		vrt.NewTimer(15 * time.Second)
+		dl := vrt.Cur().Now() + int64(15*time.Second)
+		vrt.WaitLog("remote-done", func() bool { return w.AllRemotesDone(want) || (s.Reconnect && vrt.Cur().Now() >= dl) })
 		vrt.LogTouch()
 		w.Close()
 		w.WaitServeDone()
